@@ -124,6 +124,33 @@ def truth(t):
     out["partition_asymmetry"] = pa
     out["bif_ampl_local"] = ang_local
     out["bif_ampl_remote"] = ang_remote
+    # tilt: the smaller of the two angles between the parent compartment (seen from the bifurcation) and the daughters;
+    # torque: the angle between the plane of this bifurcation and that of the previous branch point (when that is a bifurcation)
+    def ang2(u, w):
+        nu, nw = np.linalg.norm(u), np.linalg.norm(w)
+        if nu < 1e-9 or nw < 1e-9:
+            return None
+        return math.degrees(math.acos(max(-1.0, min(1.0, float(np.dot(u, w) / (nu * nw))))))
+    def far(c):
+        while nk(c) == 1:
+            c = kids[c][0]
+        return c
+    tilt_l, tilt_r, tor_l, tor_r = {}, {}, {}, {}
+    for v in furc:
+        if nk(v) != 2 or v == 0:
+            continue
+        a, b = kids[v]
+        back = P[pids[v]] - P[v]
+        tilt_l[v] = min(ang2(back, P[a] - P[v]), ang2(back, P[b] - P[v]))
+        tilt_r[v] = min(ang2(back, P[far(a)] - P[v]), ang2(back, P[far(b)] - P[v]))
+        q = pids[v]
+        while q != 0 and nk(q) == 1:
+            q = pids[q]
+        if nk(q) == 2:
+            qa, qb = kids[q]
+            tor_l[v] = ang2(np.cross(P[qa] - P[q], P[qb] - P[q]), np.cross(P[a] - P[v], P[b] - P[v]))
+            tor_r[v] = ang2(np.cross(P[far(qa)] - P[q], P[far(qb)] - P[q]), np.cross(P[far(a)] - P[v], P[far(b)] - P[v]))
+    out["bif_tilt_local"], out["bif_tilt_remote"], out["bif_torque_local"], out["bif_torque_remote"] = tilt_l, tilt_r, tor_l, tor_r
     # branch order of critical nodes = depth in the branch tree
     crit = [i for i in range(n) if i == 0 or nk(i) != 1]
     def bt_depth(i):
@@ -241,6 +268,16 @@ class Features(Suite):
                     res["partition_asymmetry"][str(v)] = float(lm.partition_asymmetry(t.node(v)))
                     res["bif_ampl_local"][str(v)] = float(lm.bif_ampl_local(t.node(v)))
                     res["bif_ampl_remote"][str(v)] = float(lm.bif_ampl_remote(t.node(v)))
+            res["bif_tilt_local"] = {}; res["bif_tilt_remote"] = {}; res["bif_torque_local"] = {}; res["bif_torque_remote"] = {}
+            for v, ks in kids.items():
+                if v > 0 and len(ks) == 2:
+                    for name in ("bif_tilt_local", "bif_tilt_remote", "bif_torque_local", "bif_torque_remote"):
+                        try:
+                            res[name][str(v)] = float(getattr(lm, name)(t.node(v)))
+                        except AssertionError as e:      # "only defined for bifurcations": the previous branch point has not two children
+                            res[name][str(v)] = {"undefined": str(e)[:60]}
+                        except Exception as e:  # noqa: BLE001
+                            res[name][str(v)] = {"exc": type(e).__name__, "msg": str(e)[:80]}
             brs = t.get_branches()
             res["fragmentation"] = sorted(int(lm.fragmentation(b)) for b in brs)
             res["contraction"] = sorted(float(lm.contraction(b)) for b in brs)
@@ -335,6 +372,22 @@ class Features(Suite):
             chk("lm-partition-asymmetry", res["partition_asymmetry"][str(v)], float(want), f"partition asymmetry at {v}")
             chk("lm-bif-angle-local", res["bif_ampl_local"][str(v)], float(tr["bif_ampl_local"][v]), f"local bifurcation angle at {v}")
             chk("lm-bif-angle-remote", res["bif_ampl_remote"][str(v)], float(tr["bif_ampl_remote"][v]), f"remote bifurcation angle at {v}")
+        for name in ("bif_tilt_local", "bif_tilt_remote"):
+            for v, want in tr[name].items():
+                got = res.get(name, {}).get(str(v))
+                if isinstance(got, dict):
+                    out.append((f"lm-{name.replace('_', '-')}-raises", f"{name} at bifurcation {v} raised {got} (pids={t['pids']})"))
+                elif want is not None and got is not None and not abs(got - want) <= 0.05:
+                    out.append((f"lm-{name.replace('_', '-')}", f"{name} at {v}: library says {got}, the definition gives {want} (pids={t['pids']})"))
+        for name in ("bif_torque_local", "bif_torque_remote"):
+            for v, want in tr[name].items():
+                got = res.get(name, {}).get(str(v))
+                if want is None:
+                    continue      # one of the two planes is degenerate (collinear daughters): the angle is undefined, the library refuses
+                if isinstance(got, dict) and "exc" in got:
+                    out.append((f"lm-{name.replace('_', '-')}-raises", f"{name} at bifurcation {v} (previous branch point is a bifurcation too) raised {got['exc']}: {got['msg']} (pids={t['pids']})"))
+                elif want is not None and isinstance(got, float) and not (abs(got - want) <= 0.05 or abs(got - (180 - want)) <= 0.05):
+                    out.append((f"lm-{name.replace('_', '-')}", f"{name} at {v}: library says {got}, the angle between the two bifurcation planes is {want} (or its supplement) (pids={t['pids']})"))
         chk("lm-fragmentation", res["fragmentation"], sorted(len(b) - 1 for b in tr["branches"]), "fragmentation")
         chk("lm-contraction", res["contraction"], tr["branch_tortuosity"], "contraction")
         if "sholl_get" in res:
